@@ -289,6 +289,12 @@ func genC09Client(p *Plan, r *RNG) {
 		}
 		p.Ops = append(p.Ops, Op{Actor: "srv", Kind: kind, At: gap(int64(r.Range(1, 400)) * ms), A: a})
 	}
+	if p.Cfg.Extra["stream"] != 1 && r.Chance(1, 3) {
+		// one more thing a stranger can send: a response with the identifier of the request that
+		// is pending, before the server's own. The call ends with a response either way
+		p.Reactions = append(p.Reactions, Reaction{Method: "binding", Attempt: r.Range(1, 2), Do: "stranger"})
+		p.Flavor += "+stranger-response"
+	}
 	p.Ops = append(p.Ops, Op{Actor: "app", Kind: "bind_txn", At: gap(1 * sec), A: OpArgs{Flags: []string{"probe"}}})
 	p.QuietNS = 15 * sec
 }
